@@ -147,8 +147,11 @@ theorem inv_stepId (g : Graph) (s : List Nat) (nd : Node) (st : St) (h : Inv g s
   | none => exact ⟨h, by intro i hi; simp at hi⟩
   | some i =>
     have ha := inv_addDef g s st i h
-    refine ⟨inv_emit g s _ i ha.1 (Or.inl ha.2), ?_⟩
-    intro j hj; cases hj; exact ha.2
+    simp only
+    split
+    · exact ⟨ha.1, by intro j hj; cases hj; exact ha.2⟩
+    · refine ⟨inv_emit g s _ i ha.1 (Or.inl ha.2), ?_⟩
+      intro j hj; cases hj; exact ha.2
 
 theorem inv_stepAuto (g : Graph) (s : List Nat) (o : Opts) (nd : Node) (st : St) (h : Inv g s st) :
     Inv g s (stepAuto o nd st) ∧ ∀ x, x ∈ st.defs → x ∈ (stepAuto o nd st).defs := by
